@@ -18,6 +18,8 @@ def gen(r, n):
     # under --no-capture: the signal still reaches the whole group, SIGKILL at the end of the grace period
     scs.append(dict(u=150, period=20, ta=None, grace=2, leak=0.7, dur=9, on_term="ignore", child=True, sigs=[(1.5, "HUP")],
                     no_capture=True))
+    scs.append(dict(u=150, period=20, ta=None, grace=2, leak=0.7, dur=9, on_term="ignore", child=True, sigs=[(1.5, "QUIT")],
+                    direct_spawn=True))
     # a unit that sorts earlier is waiting out a retry delay when the first signal comes (it then
     # returns without a Finished event); the second signal must still reach the stubborn test
     scs.append(dict(u=150, period=20, ta=None, grace=12, leak=0.7, dur=16, on_term="ignore",
